@@ -1,8 +1,197 @@
 import Pose.Wire
-/-! Driver ops for C10. -/
-namespace PP.Driver
-open PP Wire
+import Pose.Model.LinSolve
+import Pose.Model.SparseMM
+/-! Driver ops for C10 (linear solvers, CG, block-sparse product).
 
-def opsC10 : List (String × Handler) := []
+All dense data are row-major `m:e` tokens; sizes and index arrays are decimal naturals. -/
+namespace PP.Driver
+open PP Wire LinSolve SparseMM
+
+namespace C10
+
+def vecOf (xs : Array BigF) : Nat → BigF := fun i => xs.getD i BigF.zero
+def matOf (ncols : Nat) (xs : Array BigF) : Nat → Nat → BigF :=
+  fun i j => if j < ncols then xs.getD (i * ncols + j) BigF.zero else BigF.zero
+def idxOf (xs : Array Nat) : Nat → Nat := fun i => xs.getD i 0
+
+def tabList (n : Nat) (t : Tab BigF) : List BigF := (List.range n).map t.get
+def fnList (n : Nat) (f : Nat → BigF) : List BigF := (List.range n).map f
+
+def takeNums (n : Nat) (ts : List String) : Except String (Array BigF × List String) := do
+  let (a, b) ← Wire.take n ts
+  let xs ← nums a
+  return (xs.toArray, b)
+
+def takeNats (n : Nat) (ts : List String) : Except String (Array Nat × List String) := do
+  let (a, b) ← Wire.take n ts
+  let xs ← nats a
+  return (xs.toArray, b)
+
+def frob (n m : Nat) (A : Nat → Nat → BigF) : BigF :=
+  Scalar.sqrt (sumN n fun i => sumN m fun j => A i j * A i j)
+
+def b2n (b : Bool) : String := if b then "1" else "0"
+
+/-- `A ∓ τ·diag(A)` -/
+def shiftDiag (A : Nat → Nat → BigF) (tau : BigF) : Nat → Nat → BigF :=
+  fun i j => if i = j then A i j + tau * A i j else A i j
+
+def isOk {ε β : Type} : Except ε β → Bool | .ok _ => true | .error _ => false
+
+/-- dense block product `(dm×dn)·(dn×dp)`, flat row-major arrays -/
+def blkMul (dm dn dp : Nat) (a b : Array BigF) : Array BigF :=
+  Array.ofFn (n := dm * dp) fun t =>
+    let i := t.val / dp
+    let j := t.val % dp
+    sumN dn fun s => a.getD (i * dn + s) BigF.zero * b.getD (s * dp + j) BigF.zero
+
+def blkAdd (a b : Array BigF) : Array BigF :=
+  Array.ofFn (n := a.size) fun t => a.getD t.val BigF.zero + b.getD t.val BigF.zero
+
+def chunks (sz : Nat) (xs : Array BigF) (cnt : Nat) : Array (Array BigF) :=
+  Array.ofFn (n := cnt) fun t => xs.extract (t.val * sz) (t.val * sz + sz)
+
+def layoutOf : String → Except String Layout
+  | "strided" => .ok .strided | "coo" => .ok .coo | "csr" => .ok .csr
+  | "csc" => .ok .csc | "bsr" => .ok .bsr | "bsc" => .ok .bsc
+  | s => .error s!"bad-layout:{s}"
+
+def routeName : Route → String
+  | .mergeJoin => "mergeJoin" | .raiseNotImplemented => "raiseNotImplemented" | .addmmCsr => "addmmCsr"
+  | .convertBoth => "convertBoth" | .convertLeft => "convertLeft" | .addmmDense => "addmmDense"
+  | .raiseTuple => "raiseTuple"
+
+end C10
+open C10
+
+def opsC10 : List (String × Handler) := [
+  -- c10.matvec n m P(n*m) b(m)          PINV.forward given the kernel's P
+  ("c10.matvec", fun ts => do
+    match ts with
+    | n :: m :: rest =>
+      let n ← nat n; let m ← nat m
+      let (P, rest) ← takeNums (n * m) rest
+      let (b, _) ← takeNums m rest
+      return fmt (tabList n (pinvForward m n (matOf m P) (vecOf b)))
+    | _ => throw "arity"),
+  -- c10.penrose m n A(m*n) P(n*m)  -> |APA-A| |PAP-P| |(AP)^T-AP| |(PA)^T-PA| |A| |P|   (Frobenius)
+  ("c10.penrose", fun ts => do
+    match ts with
+    | m :: n :: rest =>
+      let m ← nat m; let n ← nat n
+      let (A, rest) ← takeNums (m * n) rest
+      let (P, _) ← takeNums (n * m) rest
+      let A := matOf n A; let P := matOf m P
+      let AP := (tab2 m m (matMul n A P)).get
+      let PA := (tab2 n n (matMul m P A)).get
+      let APA := (tab2 m n (matMul m AP A)).get
+      let PAP := (tab2 n m (matMul n PA P)).get
+      return fmt [frob m n (fun i j => APA i j - A i j), frob n m (fun i j => PAP i j - P i j),
+                  frob m m (fun i j => AP j i - AP i j), frob n n (fun i j => PA j i - PA i j),
+                  frob m n A, frob n m P]
+    | _ => throw "arity"),
+  -- c10.lscert m n A(m*n) b(m) x(n) -> |A^T(Ax-b)| |Ax-b| |x| |b| |A|_F     (exact certificates)
+  ("c10.lscert", fun ts => do
+    match ts with
+    | m :: n :: rest =>
+      let m ← nat m; let n ← nat n
+      let (A, rest) ← takeNums (m * n) rest
+      let (b, rest) ← takeNums m rest
+      let (x, _) ← takeNums n rest
+      let A := matOf n A; let b := vecOf b; let x := vecOf x
+      let res := tab m fun i => matVec n A x i - b i
+      let g := tab n (matVec m (transpose A) res.get)
+      return fmt [norm n g.get, norm m res.get, norm n x, norm m b, frob m n A]
+    | _ => throw "arity"),
+  -- c10.lsref m r n B(m*r) C(r*n) b(m) -> x(n) | err rank
+  ("c10.lsref", fun ts => do
+    match ts with
+    | m :: r :: n :: rest =>
+      let m ← nat m; let r ← nat r; let n ← nat n
+      let (B, rest) ← takeNums (m * r) rest
+      let (C, rest) ← takeNums (r * n) rest
+      let (b, _) ← takeNums m rest
+      match lsRef m r n (matOf r B) (matOf n C) (vecOf b) with
+      | .ok x => return fmt (tabList n x)
+      | .error e => throw e
+    | _ => throw "arity"),
+  -- c10.chol n upper tau A(n*n) b(n) -> pd(A-tau D) pd(A) pd(A+tau D) info x(n)   (x only when pd(A))
+  ("c10.chol", fun ts => do
+    match ts with
+    | n :: upper :: tau :: rest =>
+      let n ← nat n; let upper ← nat upper; let tau ← num tau
+      let (A, rest) ← takeNums (n * n) rest
+      let (b, _) ← takeNums n rest
+      let A := matOf n A
+      let up := upper == 1
+      let Aeff := if up then transpose A else A
+      let pdm := isOk (chol (shiftDiag Aeff (BigF.neg tau)) n)
+      let pdp := isOk (chol (shiftDiag Aeff tau) n)
+      let info := (cholExStd n up A).2
+      match choleskyForwardStd n up A (vecOf b) with
+      | .ok x => return s!"{b2n pdm} 1 {b2n pdp} {info} " ++ fmt (tabList n x)
+      | .error _ => return s!"{b2n pdm} 0 {b2n pdp} {info}"
+    | _ => throw "arity"),
+  -- c10.cg n tol maxiter(-1 = None) hasx0 hasM A(n*n) b(n) [x0(n)] [M(n*n)] -> iter stopped x(n) |r|
+  ("c10.cg", fun ts => do
+    match ts with
+    | n :: tol :: mi :: hx :: hm :: rest =>
+      let n ← nat n; let tol ← num tol; let mi ← int mi; let hx ← nat hx; let hm ← nat hm
+      let (A, rest) ← takeNums (n * n) rest
+      let (b, rest) ← takeNums n rest
+      let (x0, rest) ← if hx == 1 then takeNums n rest else pure (#[], rest)
+      let (M, _) ← if hm == 1 then takeNums (n * n) rest else pure (#[], rest)
+      let s := cgForward n tol (if mi < 0 then none else some mi.toNat) (matOf n A) (vecOf b)
+        (if hx == 1 then some (vecOf x0) else none) (if hm == 1 then some (matOf n M) else none)
+      return s!"{s.iter} {b2n s.stopped} " ++ fmt (tabList n s.x ++ [norm n s.r.get])
+    | _ => throw "arity"),
+  -- c10.cgtraj n K hasx0 hasM A b [x0] [M] -> |b| then for k=0..K: |r_k|, then x_K(n)
+  -- (K unconditional passes through the loop body, stop test ignored; b ≠ 0 assumed)
+  ("c10.cgtraj", fun ts => do
+    match ts with
+    | n :: kk :: hx :: hm :: rest =>
+      let n ← nat n; let kk ← nat kk; let hx ← nat hx; let hm ← nat hm
+      let (A, rest) ← takeNums (n * n) rest
+      let (b, rest) ← takeNums n rest
+      let (x0, rest) ← if hx == 1 then takeNums n rest else pure (#[], rest)
+      let (M, _) ← if hm == 1 then takeNums (n * n) rest else pure (#[], rest)
+      let A := matOf n A; let b := vecOf b
+      let Mo := if hm == 1 then some (matOf n M) else none
+      -- maxiter = 0: cgForward returns the initial state (x0, r0)
+      let s0 := cgForward n (BigF.ofNat 1) (some 0) A b (if hx == 1 then some (vecOf x0) else none) Mo
+      let (sK, ns) := (List.range kk).foldl (fun (acc : CGState BigF × List BigF) _ =>
+          let s' := cgStep n A Mo acc.1
+          (s', norm n s'.r.get :: acc.2)) (s0, [norm n s0.r.get])
+      return fmt ([norm n b] ++ ns.reverse ++ tabList n sK.x)
+    | _ => throw "arity"),
+  -- c10.bsrbsc sm sn sp dm dn dp nnzA nnzB crow(sm+1) col(nnzA) ccol(sp+1) row(nnzB) va(nnzA*dm*dn) vb(nnzB*dn*dp)
+  --   -> nblk crow(sm+1) col(nblk) values(nblk*dm*dp)
+  ("c10.bsrbsc", fun ts => do
+    match ts with
+    | sm :: sn :: sp :: dm :: dn :: dp :: na :: nb :: rest =>
+      let sm ← nat sm; let _sn ← nat sn; let sp ← nat sp
+      let dm ← nat dm; let dn ← nat dn; let dp ← nat dp; let na ← nat na; let nb ← nat nb
+      let (crow, rest) ← takeNats (sm + 1) rest
+      let (col, rest) ← takeNats na rest
+      let (ccol, rest) ← takeNats (sp + 1) rest
+      let (row, rest) ← takeNats nb rest
+      let (va, rest) ← takeNums (na * dm * dn) rest
+      let (vb, _) ← takeNums (nb * dn * dp) rest
+      let ba := chunks (dm * dn) va na
+      let bb := chunks (dn * dp) vb nb
+      let zero : Array BigF := Array.replicate (dm * dp) BigF.zero
+      let (rc, cc, vals) := bsrBscMatmul zero blkAdd (blkMul dm dn dp) sm sp (idxOf crow) (idxOf col)
+        (fun i => ba.getD i #[]) (idxOf ccol) (idxOf row) (fun i => bb.getD i #[])
+      let flat := vals.flatMap fun v => v.toList
+      return s!"{cc.length} {fmtNats rc} {fmtNats cc} {fmt flat}".trimAscii.toString
+    | _ => throw "arity"),
+  -- c10.dispatch l1 l2 -> route finalRoute
+  ("c10.dispatch", fun ts => do
+    match ts with
+    | [a, b] =>
+      let l1 ← layoutOf a; let l2 ← layoutOf b
+      return s!"{routeName (dispatch l1 l2)} {routeName (finalRoute 2 l1 l2)}"
+    | _ => throw "arity")
+]
 
 end PP.Driver
